@@ -636,7 +636,7 @@ def headers(draw, tier, for_prop):
     else:
         h['init'] = dict(kind='point', x0=draw(st.lists(st.one_of(st.sampled_from([0.0, 1.0, -1.2, 2.5]), finite_floats(-4, 4)),
                                                          min_size=dim, max_size=dim)))
-    h['evalmon'] = draw(st.sampled_from([None, 'plain', 'plain', 'verbose', 'logging']))
+    h['evalmon'] = draw(st.sampled_from([None, 'plain', 'plain', 'verbose', 'logging', 'plain:64', 'plain:0.25']))
     h['stepmon'] = draw(st.sampled_from([None, None, 'plain', 'verbose', 'logging', 'vlogging']))
     h['term'] = draw(st.sampled_from(['never', 'never', 'cog', 'vtr', 'default', 'ncog'] + TERMS_MORE))
     if draw(st.booleans()):
@@ -699,11 +699,11 @@ def machine_factory(for_prop):
             def term(self, t):
                 self.do(['term', t])
 
-            @rule(kind=st.sampled_from(['plain', 'verbose', 'logging']), new=st.booleans())
+            @rule(kind=st.sampled_from(['plain', 'verbose', 'logging', 'plain:64', 'plain:0.25', 'verbose:-1']), new=st.booleans())
             def evalmon(self, kind, new):
                 self.do(['evalmon', kind, new])
 
-            @rule(kind=st.sampled_from(['plain', 'verbose', 'logging', 'vlogging']))
+            @rule(kind=st.sampled_from(['plain', 'verbose', 'logging', 'vlogging', 'plain:64', 'plain:0.25', 'verbose:-1']))
             def stepmon(self, kind):
                 self.do(['stepmon', kind])
 
